@@ -1,17 +1,16 @@
 #!/bin/sh
-# usage: tools/srv_bite.sh <seeded-name> <command...>
-# Applies /verif/seeded/srv-<name>/patch.diff to /repo's working tree, runs the command (a check),
-# and restores the touched files immediately afterwards.  Never commits in /repo.
+# usage: tools/srv_bite.sh <seeded-name> <check command...>
+# Applies /verif/seeded/srv-<name>/patch.diff to a private checkout of /repo (git worktree at
+# /tmp/seed/srv, created with `git -C /repo worktree add --detach /tmp/seed/srv HEAD`), runs the
+# check against it (VERIF_REPO), and restores the checkout.  /repo itself is never touched.
 name=$1; shift
 d=/verif/seeded/srv-$name
-cd /repo || exit 3
-files="tarpc/src/server.rs tarpc/src/server/in_flight_requests.rs tarpc/src/server/limits/requests_per_channel.rs"
-if ! git diff --quiet -- $files; then echo "server files already modified in /repo: refusing" >&2; exit 3; fi
-patch -p1 -s < $d/patch.diff || { git checkout -- $files; exit 3; }
-trap 'cd /repo && git checkout -- $files' EXIT INT TERM
-cd /verif && "$@" > $d/output.txt 2>&1
+W=/tmp/seed/srv
+[ -d $W/tarpc ] || git -C /repo worktree add --detach $W HEAD || exit 3
+git -C $W checkout -q -- . && git -C $W checkout -q --detach $(git -C /repo rev-parse HEAD)
+(cd $W && patch -p1 -s < $d/patch.diff) || { git -C $W checkout -- .; exit 3; }
+cd /verif && VERIF_REPO=$W "$@" > $d/output.txt 2>&1
 rc=$?
-cd /repo && git checkout -- $files
-trap - EXIT INT TERM
-git -C /repo diff --quiet -- $files && echo "restored; check exit code $rc"
-grep -E "VIOLATION|KNOWN-FINDING|INFRA|quick:|half quick" $d/output.txt | cut -c1-400
+git -C $W checkout -- .
+echo "check exit code $rc"
+grep -E "VIOLATION|KNOWN-FINDING|INFRA|quick:|half quick" $d/output.txt | cut -c1-300
